@@ -173,6 +173,76 @@ fn abs_seq(v: &J) -> Vec<J> {
     v.as_array().map(|a| a.iter().map(abs).collect()).unwrap_or_default()
 }
 
+// ---------------------------------------------------------------------------------------------
+// abstraction of the `postprocess` observation into the records of spec/SortInfer.tla
+
+fn si_base(k: &str) -> J {
+    json!({"k": k, "keys": [], "part": [], "cols": [], "src": -1, "riid": -1, "side": "", "sub": []})
+}
+
+fn si_keys(v: &J) -> Vec<J> {
+    v.as_array().map(|a| a.iter().map(|s| json!({"col": s["column"].as_i64().unwrap_or(-1), "desc": s["direction"] == "Desc"})).collect()).unwrap_or_default()
+}
+
+fn si_rel(t: &mut J, rel: &J) {
+    t["riid"] = json!(rel["riid"].as_i64().unwrap_or(-1));
+    if let Some(tid) = rel["kind"].get("Ref").and_then(|x| x.as_i64()) {
+        t["src"] = json!(tid);
+    } else if let Some(p) = rel["kind"].get("SubQuery").and_then(|r| r.get("AtomicPipeline")) {
+        t["sub"] = json!(si_pipe(p));
+    }
+}
+
+fn si_transform(t: &J) -> J {
+    if let Some(s) = t.as_str() {
+        return si_base(if s == "Distinct" { "Distinct" } else { "Other" });
+    }
+    let Some((k, v)) = t.as_object().and_then(|m| m.iter().next()) else { return si_base("Other") };
+    match k.as_str() {
+        "Select" => { let mut x = si_base("Select"); x["cols"] = json!(ints(v)); x }
+        "From" => { let mut x = si_base("From"); si_rel(&mut x, v); x }
+        "Join" => { let mut x = si_base("Join"); si_rel(&mut x, &v["with"]); x["side"] = json!(v["side"].as_str().unwrap_or("")); x["sub"] = json!([]); x }
+        "Sort" => { let mut x = si_base("Sort"); x["keys"] = json!(si_keys(v)); x }
+        "Take" => { let mut x = si_base("Take"); x["keys"] = json!(si_keys(&v["sort"])); x["part"] = json!(ints(&v["partition"])); x }
+        "Aggregate" => { let mut x = si_base("Aggregate"); x["part"] = json!(ints(&v["partition"])); x }
+        "DistinctOn" => { let mut x = si_base("DistinctOn"); x["part"] = json!(ints(v)); x }
+        "Union" | "Except" | "Intersect" => si_base("Union"),
+        _ => si_base("Other"),
+    }
+}
+
+fn si_pipe(p: &J) -> Vec<J> {
+    p.as_array().map(|a| a.iter().map(si_transform).collect()).unwrap_or_default()
+}
+
+fn si_query(q: &J) -> Option<J> {
+    let main = q["main_relation"].get("AtomicPipeline")?;
+    let rel = |r: &J| r.get("AtomicPipeline").map(si_pipe);
+    let ctes: Vec<J> = q["ctes"].as_array().map(|a| a.iter().map(|c| {
+        let pipes: Vec<Vec<J>> = if let Some(r) = c["kind"].get("Normal") {
+            rel(r).into_iter().collect()
+        } else {
+            [&c["kind"]["Loop"]["initial"], &c["kind"]["Loop"]["step"]].iter().filter_map(|r| rel(r)).collect()
+        };
+        json!({"tid": c["tid"].as_i64().unwrap_or(-1), "pipes": pipes})
+    }).collect()).unwrap_or_default();
+    Some(json!({"ctes": ctes, "main": si_pipe(main)}))
+}
+
+fn si_event(p: &J) -> Option<J> {
+    let before = si_query(&p["before"])?;
+    let after = si_query(&p["after"])?;
+    let mut r = vec![];
+    for inst in p["instances"].as_array().into_iter().flatten() {
+        for pair in inst["redirects"].as_array().into_iter().flatten() {
+            r.push(json!({"riid": inst["riid"], "src": pair[0], "tgt": pair[1]}));
+        }
+    }
+    let a: Vec<J> = p["aliases"].as_array().into_iter().flatten().map(|x| json!({"id": x[0], "ref": x[1]})).collect();
+    let d: Vec<J> = p["decls"].as_array().into_iter().flatten().map(|x| json!({"cid": x[0], "riid": x[1]})).collect();
+    Some(json!({"ev": "Post", "before": before, "after": after, "R": r, "A": a, "D": d}))
+}
+
 fn num(e: &sqlparser::ast::Expr) -> i64 {
     e.to_string().trim().parse::<i64>().unwrap_or(-2)
 }
@@ -286,6 +356,11 @@ pub fn main(args: &[String]) -> i32 {
                             match t.as_object().and_then(|m| m.iter().next()) { Some((k, v)) => abs_rq(k, v, true), None => base(t.as_str().unwrap_or("?"), true) }
                         }).collect()).unwrap_or_default();
                         writeln!(out, "{}", json!({"ev": "Pre", "input": input, "output": abs_seq(&p["output"])})).unwrap();
+                    }
+                    "postprocess" => {
+                        if let Some(e) = si_event(&p) {
+                            writeln!(out, "{}", e).unwrap();
+                        }
                     }
                     "select" => {
                         let sql = p["sql"].as_str().unwrap_or("");
